@@ -101,6 +101,9 @@ func c07Text(n int, enc string, salt byte) string {
 	if enc == "json" && n >= 4 {
 		copy(b, "é\"\\") // multi-byte rune and characters that need escaping
 	}
+	if enc == "json" && n >= 16 {
+		copy(b[4:], "\x00\x1b\x7f\a\v\U000e0001") // control characters and a non-printable rune beyond the BMP
+	}
 	return string(b)
 }
 
